@@ -1306,7 +1306,9 @@ func runReasmCase(ctx *Ctx, m *common.Model, c RCase, idx int) *common.Violation
 	}
 	sibling := reasmSibling
 	// correspondence
-	if !c.InWindow && c.Max > 11 {
+	if !c.InWindow && (c.Max > 11 || strconv.IntSize == 32) {
+		// as a 32-bit program (the second pass) histories outside one window are monitored only: EventsLost takes an
+		// int, and a loss count of 2^31 or more, which only such histories produce, is not reported there
 		ctx.Res.Unmodelled++
 		return nil
 	}
